@@ -11,7 +11,7 @@ Two printing styles:
 """
 import macrolang as ML
 
-PRIMS = ['bgroup', 'egroup', 'def', 'gdef', 'relax', 'else', 'fi', 'iftrue', 'iffalse', 'ifnum', 'ifcase']
+PRIMS = ['bgroup', 'egroup', 'def', 'gdef', 'relax', 'else', 'fi', 'iftrue', 'iffalse', 'ifnum', 'ifcase', 'newcommand', 'renewcommand', 'let']
 
 
 # ---- names of Spec/MacroPrint.v -------------------------------------------------------------------
@@ -70,8 +70,21 @@ class Pr:
         if k == 'group':
             return '{' + self.nodes(n[1]) + '}'
         if k == 'def':
-            _, g, name, np, _default, body, how = n
+            _, g, name, np, default, body, how = n
             how = how or {}
+            if default is not None or (self.style != 'f' and how.get('kind') in ('newcommand', 'renewcommand')):
+                # \\newcommand{\\name}[total][default]{body}: the optional argument is #1
+                cmd = how.get('kind') if (self.style != 'f' and how.get('kind') in ('newcommand', 'renewcommand')) else 'newcommand'
+                total = np + (1 if default is not None else 0)
+                s = '\\%s{\\%s}' % (cmd, self.mac(name))
+                if total or self.style == 'f':
+                    s += '[%d]' % total
+                if default is not None:
+                    s += '[' + self.nodes(default) + ']'
+                self.depth += 1
+                b = self.nodes(body)
+                self.depth -= 1
+                return s + '{' + b + '}'
             delims = how.get('delims') or [''] * (np + 1)
             hashes = '#' * (2 ** self.depth)
             pat = delims[0] + ''.join('%s%d%s' % (hashes, i + 1, delims[i + 1]) for i in range(np))
@@ -80,10 +93,12 @@ class Pr:
             self.depth -= 1
             return '\\%s\\%s%s{%s}' % ('gdef' if g else 'def', self.mac(name), pat, b)
         if k == 'call':
-            _, name, _opt, args, how = n
+            _, name, opt, args, how = n
             how = how or {}
             delims = how.get('delims')
             s = '\\' + self.mac(name)
+            if opt is not None:
+                return s + '[' + self.nodes(opt) + ']' + ''.join('{' + self.nodes(a) + '}' for a in args)
             if delims and any(delims):
                 s += ' ' + delims[0]
                 for i, a in enumerate(args):
@@ -92,6 +107,8 @@ class Pr:
             if not args:
                 return s + ('{}' if (self.style != 'f' and how.get('empty') == 'braces') else ' ')
             return s + ''.join('{' + self.nodes(a) + '}' for a in args)
+        if k == 'let':
+            return '\\let\\%s=\\%s ' % (self.mac(n[1]), self.mac(n[2]))
         if k == 'param':
             return '#%d' % n[1]
         if k == 'param2':
@@ -120,7 +137,7 @@ def to_source(prog, style):
 DELIMS = ['.', ',', ';', ':']
 
 
-def gen_prog(rng, f1_only=False, max_params=3, delims=True, allow_nested=True):
+def gen_prog(rng, f1_only=False, max_params=3, delims=True, allow_nested=True, newcommands=True, lets=True):
     """a program of the fragment; f1_only: no parameters at all (fragment F1 of the theorem); otherwise undelimited
     (and a few delimited) parameters.  Bodies call only lower-numbered macros, so expansion terminates."""
     nmac = rng.randint(1, 4)
@@ -130,11 +147,14 @@ def gen_prog(rng, f1_only=False, max_params=3, delims=True, allow_nested=True):
         how = {'kind': 'def'}
         if np and not f1_only and delims and rng.random() < 0.2:
             how['delims'] = [rng.choice(['', '', '!'])] + [rng.choice(['', ''] + DELIMS) for _ in range(np)]
+        if not f1_only and newcommands and rng.random() < 0.3:
+            how = {'kind': 'newcommand', 'opt': np < max(max_params, 3) and rng.random() < 0.7}
         sigs[i] = (np, how)
-    gok = {i for i in sigs if rng.random() < 0.4}     # ids that may be \\gdef'ed: these are never defined locally inside a group or a body
+    gok = {i for i in sigs if rng.random() < 0.4 or sigs[i][1].get('kind') == 'newcommand'}     # ids that may be \\gdef'ed: these are never defined locally inside a group or a body
     w = [0]
     nested = allow_nested and rng.random() < 0.5     # a program uses either literal ## or definitions nested in bodies, never both
     inner_ids = [0]
+    alias_ids = [0]
     scopes = [set()]       # ids certainly defined at this point, per open group (static approximation)
 
     def visible():
@@ -170,7 +190,10 @@ def gen_prog(rng, f1_only=False, max_params=3, delims=True, allow_nested=True):
         h = dict(how)
         if rng.random() < 0.5:
             h['empty'] = 'braces'
-        return ['call', i, None, args, h]
+        opt = None
+        if how.get('opt') and rng.random() < 0.5:
+            opt = [word() for _ in range(rng.randint(0, 2))]
+        return ['call', i, opt, args, h]
 
     def content(depth, params, ids, n=None, allow_def=True, simple_args=False):
         n = rng.randint(1, 3) if n is None else n
@@ -191,7 +214,11 @@ def gen_prog(rng, f1_only=False, max_params=3, delims=True, allow_nested=True):
                 if t[0] == 'num' and rng.random() < 0.45:
                     # other ways to end the second number: a blank (in front of anything: \\fi, \\else, a call, a brace, a word - since
                     # fix c654904 readInteger only peeks at the next token) or a blank followed by \\relax
-                    t.append(rng.choice([' ', ' ', ' \\relax ']))
+                    # '' : the digits are directly followed by \\fi / \\else / a word / a conditional (fix 076499b).  Not by a call, a
+                    # parameter or a brace: a user macro met while scanning the number is expanded with the full expanding
+                    # iterator, which runs on to its first yield and so executes a following { or \\def (residual defect, reported)
+                    direct_ok = (not thn) or thn[0][0] in ('word', 'cond', 'case')
+                    t.append(rng.choice([' ', ' ', ' \\relax '] + (['', ''] if direct_ok else [])))
                 out.append(['cond', t, thn,
                             content(depth - 1, params, ids, n=rng.randint(0, 2), allow_def=False, simple_args=simple_args)
                             if rng.random() < 0.5 else None])
@@ -203,8 +230,17 @@ def gen_prog(rng, f1_only=False, max_params=3, delims=True, allow_nested=True):
                 out.append(word())
         return out
 
+    def mkdef(i, g):
+        np, how = sigs[i]
+        default = [word() for _ in range(rng.randint(0, 2))] if how.get('opt') else None
+        if how.get('kind') == 'newcommand':
+            g = True        # \\newcommand is global in plasTeX by design
+            how = dict(how, kind=rng.choice(['newcommand', 'renewcommand']))
+        return ['def', g, i, np, default, body(i), dict(how)]
+
     def body(i):
         np, how = sigs[i]
+        np = np + (1 if how.get('opt') else 0)
         b = content(2, np, list(range(i)), n=rng.randint(0, 4), allow_def=False)
         if not f1_only and nested and rng.random() < 0.4:
             # a definition nested in the body: its own parameters are written ##k there (DefCommand removes one level of #)
@@ -237,19 +273,30 @@ def gen_prog(rng, f1_only=False, max_params=3, delims=True, allow_nested=True):
                 i = rng.randrange(nmac)
                 # \gdef under a live local definition of the same name: plasTeX differs from TeX by design (C04), never generated
                 g = (i in gok) and (len(scopes) > 1 or rng.random() < 0.3)
-                out.append(['def', g, i, sigs[i][0], None, body(i), dict(sigs[i][1])])
-                (scopes[0] if g else scopes[-1]).add(i)
+                d = mkdef(i, g)
+                out.append(d)
+                (scopes[0] if d[1] else scopes[-1]).add(i)
             elif depth > 0 and r < 0.5:
                 scopes.append(set())
                 out.append(['group', main(depth - 1), 'brace'])
                 scopes.pop()
+            elif r < 0.58 and lets and not f1_only and visible():
+                # \\let\\new=\\old : a local alias (the meaning at this moment), then uses of it
+                tgt = rng.choice(visible())
+                new = 20 + alias_ids[0]
+                alias_ids[0] += 1
+                sigs[new] = (sigs[tgt][0], dict(sigs[tgt][1]))
+                out.append(['let', new, tgt])
+                scopes[-1].add(new)
+                for _ in range(rng.randint(0, 2)):
+                    out.append(call([new], 2, 0, False))
             else:
                 out += content(2, 0, visible(), n=1)
         return out
     prog = []
     for i in range(nmac):
         if rng.random() < 0.8:
-            prog.append(['def', False, i, sigs[i][0], None, body(i), dict(sigs[i][1])])
+            prog.append(mkdef(i, False))
             scopes[0].add(i)
     prog += main(2)
     return prog
@@ -307,17 +354,25 @@ def _case_head(n):
     return n[1][0] == 'lit' and n[1][1] >= 0 and len(n[2]) >= 1
 
 
+def _words(l):
+    return all(x[0] == 'word' for x in l)
+
+
+def _opt_ok(o):
+    return o is None or _words(o)
+
+
 def _fa(n):
     """Spec/MacroPrint.fa_node: argument text"""
     k = n[0]
-    if k == 'word':
+    if k in ('word', 'let'):
         return True
     if k == 'group':
         return all(_fa(x) for x in n[1])
     if k == 'def':
         return n[3] == 0 and n[4] is None and all(_fa(x) for x in n[5])
     if k == 'call':
-        return n[2] is None and all(all(_fa(x) for x in a) for a in n[3])
+        return _opt_ok(n[2]) and all(all(_fa(x) for x in a) for a in n[3])
     if k == 'cond':
         return _test_ok(n[1]) and all(_fa(x) for x in n[2]) and (n[3] is None or all(_fa(x) for x in n[3]))
     if k == 'case':
@@ -328,7 +383,7 @@ def _fa(n):
 def _fb(np, n, d):
     """Spec/MacroPrint.fb_node: body of a macro with np parameters, nesting depth at most d"""
     k = n[0]
-    if k == 'word':
+    if k in ('word', 'let'):
         return True
     if k == 'param':
         return 1 <= n[1] <= np
@@ -337,7 +392,7 @@ def _fb(np, n, d):
     if k == 'def':
         return n[3] == 0 and n[4] is None and d > 0 and all(_fb(np, x, d - 1) for x in n[5])
     if k == 'call':
-        return n[2] is None and all(d > 0 and all(_fb(np, x, d - 1) for x in a) for a in n[3])
+        return _opt_ok(n[2]) and all(d > 0 and all(_fb(np, x, d - 1) for x in a) for a in n[3])
     if k == 'cond':
         return _test_ok(n[1]) and d > 0 and all(_fb(np, x, d - 1) for x in n[2]) and (n[3] is None or all(_fb(np, x, d - 1) for x in n[3]))
     if k == 'case':
@@ -347,14 +402,16 @@ def _fb(np, n, d):
 
 def _f2(n):
     k = n[0]
-    if k == 'word':
+    if k in ('word', 'let'):
         return True
     if k == 'group':
         return all(_f2(x) for x in n[1])
     if k == 'def':
-        return n[3] <= 9 and n[4] is None and (all(_fb(n[3], x, 49) for x in n[5]) or (n[3] == 0 and all(_fa(x) for x in n[5])))
+        if n[4] is not None:
+            return bool(n[1]) and n[3] + 1 <= 9 and _words(n[4]) and all(_fb(n[3] + 1, x, 49) for x in n[5])
+        return n[3] <= 9 and (all(_fb(n[3], x, 49) for x in n[5]) or (n[3] == 0 and all(_fa(x) for x in n[5])))
     if k == 'call':
-        return n[2] is None and all(all(_fa(x) for x in a) for a in n[3])
+        return _opt_ok(n[2]) and all(all(_fa(x) for x in a) for a in n[3])
     if k == 'cond':
         return _test_ok(n[1]) and all(_f2(x) for x in n[2]) and (n[3] is None or all(_f2(x) for x in n[3]))
     if k == 'case':
@@ -375,7 +432,7 @@ def T(c, s):
 
 SOUP = [T(11, 'a'), T(11, 'b'), T(10, ' '), T(1, '{'), T(2, '}'), T(6, '#'), T(12, '1'), T(12, '2'), T(12, '<'), T(12, '='), T(12, '>'),
         T(12, '-'), T(12, '+'), T(0, 'def'), T(0, 'gdef'), T(0, 'zqa'), T(0, 'zqb'), T(0, 'iftrue'), T(0, 'iffalse'), T(0, 'ifnum'),
-        T(0, 'else'), T(0, 'fi'), T(0, 'relax'), T(0, 'ifcase'), T(0, 'or')]
+        T(0, 'else'), T(0, 'fi'), T(0, 'relax'), T(0, 'ifcase'), T(0, 'or'), T(0, 'newcommand'), T(12, '['), T(12, ']'), T(12, '*'), T(0, 'let'), T(0, 'let')]
 SMALL = [T(11, 'a'), T(10, ' '), T(1, '{'), T(2, '}'), T(6, '#'), T(12, '1'), T(12, '<'), T(0, 'def'), T(0, 'zqa'), T(0, 'iftrue'),
          T(0, 'ifnum'), T(0, 'else'), T(0, 'fi'), T(0, 'relax')]
 
@@ -398,7 +455,19 @@ def gen_soup(rng):
             # what follows the second number is looked at (expanded) by the number reader, also after the optional blank
             pre += [T(10, ' ')] * rng.choice([0, 1, 1, 1]) + rng.choice([[T(0, 'fi')], [T(0, 'else')], [T(1, '{')], [T(2, '}')], [T(0, 'zqa')], [T(0, 'iftrue')],
                                                                  [T(0, 'relax')], [T(0, 'def'), T(0, 'zqb'), T(1, '{'), T(11, 'a'), T(2, '}')]])
-    elif r < 0.9:
+    elif r < 0.82:
+        # \\newcommand with its optional parts present / absent / damaged, then uses of \\zqa
+        pre = [T(0, rng.choice(['newcommand', 'newcommand', 'renewcommand']))] + ([T(12, '*')] if rng.random() < 0.15 else [])
+        pre += rng.choice([[T(1, '{'), T(0, 'zqa'), T(2, '}')], [T(0, 'zqa')], [T(1, '{'), T(0, 'zqa')], [T(11, 'a')], [T(0, 'relax')], [T(0, 'def')]])
+        if rng.random() < 0.7:
+            pre += [T(12, '[')] + rng.choice([[T(12, '1')], [T(12, '2')], [T(12, '0')], [T(12, '1'), T(11, 'a')], [], [T(12, '-'), T(12, '1')], [T(10, ' '), T(12, '2')]]) + [T(12, ']')]
+            if rng.random() < 0.5:
+                pre += [T(12, '[')] + [rng.choice([T(11, 'a'), T(11, 'b'), T(12, '['), T(12, ']'), T(10, ' ')]) for _ in range(rng.randint(0, 2))] + [T(12, ']')]
+        balpha = [T(11, 'a'), T(11, 'b'), T(6, '#'), T(12, '1'), T(12, '2'), T(10, ' '), T(0, 'zqb')]
+        pre += [T(1, '{')] + [rng.choice(balpha) for _ in range(rng.randint(0, 5))] + [T(2, '}')]
+        calpha = [T(0, 'zqa'), T(0, 'zqa'), T(12, '['), T(12, ']'), T(1, '{'), T(2, '}'), T(11, 'a'), T(11, 'b'), T(10, ' ')]
+        pre += [rng.choice(calpha) for _ in range(rng.randint(0, 8))]
+    elif r < 0.93:
         # \\ifcase <number> followed by text with \\or / \\else / \\fi sprinkled in
         pre = [T(0, 'ifcase')] + [rng.choice([T(12, '0'), T(12, '1'), T(12, '2'), T(12, '3'), T(12, '-'), T(10, ' ')]) for _ in range(rng.randint(0, 2))] + \
               rng.choice([[T(0, 'relax')], [T(10, ' ')], []])
